@@ -29,7 +29,7 @@ func init() {
 			if tier == "thorough" {
 				return 150000
 			}
-			return 9000
+			return 36000
 		},
 		Run:      runC15,
 		Required: []string{"pairs_connected", "messages_crossed", "rsv1_frames_seen", "server_offers_checked", "client_replies_checked"},
